@@ -927,8 +927,28 @@ def code_hash(ctx):
     ctx.check(bool(tests), tests[0] if tests else p, "func_code_info drops its memo when the code object changed")
     resets = [a for a in assigns_to(p, "self._func_code_info") if is_const(a.value, None)]
     ctx.check(bool(resets), resets[0] if resets else p, "memoised source is reset to None in that case")
+    # the memo belongs to ONE code object: when it is dropped for a new code object, the id it is compared with must become
+    # that object's id - otherwise swapping back to the first code object finds "same id as recorded" and keeps the source
+    # that was read for the second one
+    gp = cfg_of(p)
+    for r_ in resets:
+        upd = [a for a in assigns_to(p, "self._func_code_id") if unparse(a.value) == "id(self.func.__code__)" and
+               (gp.every_path_from(gp.nodes_of(r_), gp.nodes_of(a), None, skip_exc=True) or gp.every_path_to(gp.nodes_of(r_), gp.nodes_of(a))) and
+               any(i_ is t_ for (i_, t, pol) in gp.conditions_at(gp.nodes_of(a)) for t_ in [enclosing_if(r_)] if t_ is not None)]
+        ctx.check(bool(upd), r_, "and the recorded id becomes the id of the new code object",
+                  "func_code_info drops the memoised source when func.__code__ was swapped but keeps the OLD id on record: after swapping back (A -> B -> A) the ids match again and the source read "
+                  "for B is kept for A, so values cached for B are served under A's code", key=MEM + "::MemorizedFunc.func_code_info::recorded code id follows the swap")
     gs = [c for c in calls_in(p) if call_name(c) == "get_func_code"]
     ctx.check(bool(gs) and dotted(gs[0].args[0]) == "self.func", gs[0] if gs else p, "source is (re)read through get_func_code(self.func)")
+
+
+def enclosing_if(node):
+    for a in ancestors(node):
+        if isinstance(a, ast.If):
+            return a
+        if isinstance(a, (ast.FunctionDef, ast.AsyncFunctionDef)):
+            return None
+    return None
 
 
 def _resolve_local(e, fn):
